@@ -671,8 +671,11 @@ fn write_block(
     };
     if poison == Spec::DistBeforeStart {
         // a match reaching one..many bytes before the start of the output
-        let d = plain.len() + rng.range(1, 40);
-        if d <= 32768 {
+        // mostly one or two bytes too far; never beyond what a distance code can express while a violation is
+        // still possible (fewer than 32768 bytes produced so far)
+        let over = if rng.chance(2, 3) { rng.pick(&[1usize, 1, 1, 2, 3]) } else { rng.range(1, 40) };
+        let d = (plain.len() + over).min(32768);
+        if d > plain.len() {
             toks.push(T::Match(rng.range(3, 20) as u16, d as u16));
             // plaintext after this point is undefined; stream is invalid in flat mode
         }
